@@ -4,6 +4,7 @@ generator towards the property).  Each ./check invocation rebuilds the harness a
 import hashlib
 import json
 import os
+import re
 import time
 from collections import Counter
 
@@ -539,6 +540,23 @@ def monitor_selftest(workdir, kinds, guards, multi, o7=None):
     return fired, None
 
 
+def poisoned_formats():
+    """names listed in Gen/KeysPoisonGen.v (`poisoned_formats`); [] when every key builder translated or the file is absent"""
+    p = os.path.join(vlib.ROOT, 'coq', 'theories', 'Gen', 'KeysPoisonGen.v')
+    try:
+        src = open(p).read()
+    except OSError:
+        return []
+    i = src.find('Definition poisoned_formats')
+    if i < 0:
+        return ['<unreadable Gen/KeysPoisonGen.v>']
+    body = src[i:].split(':=', 1)[-1]
+    names = re.findall(r'\(\*\s*(\S+)\s*\*\)', body)
+    if names:
+        return names
+    return [] if re.sub(r'\s', '', body) == '[].' else ['<unreadable Gen/KeysPoisonGen.v>']
+
+
 def check(run, prop):
     focus = prop.lower()
     kinds = KINDS[prop]
@@ -671,6 +689,11 @@ def check(run, prop):
             sp['ops'] = sp['ops'][:op + 1]
         return sp
 
+    # key families the `keys` translator could not normalise (Gen/KeysPoisonGen.v, regenerated by this run): the monitors
+    # recompute the expected store paths from those terms, so with a poisoned family a monitor failure is NOT a concrete
+    # counterexample of the property -- it is reported, but as a broken tie (no-failing-input-found)
+    poisoned = poisoned_formats()
+    run.coverage['poisoned_key_families'] = poisoned
     reported = set()
     for h, s, k in ff:
         if h in reported:
@@ -680,9 +703,15 @@ def check(run, prop):
         if not fails_monitor(sp):
             sp = light[h]['spec']
         small = shrink(run.work, sp, fails_monitor, budget=8)
-        run.violation(dict(kind='monitor', code=k, what=MONITOR.get(k), spec=small, failing_step=s,
-                           observed=light[h]['steps'][s]['err'] if s < len(light[h]['steps']) else ''),
-                      name='replay_h%d.json' % h)
+        rep = dict(kind='monitor', code=k, what=MONITOR.get(k), spec=small, failing_step=s,
+                   observed=light[h]['steps'][s]['err'] if s < len(light[h]['steps']) else '')
+        if poisoned:
+            rep.update(broken='translator tools/gotocoq/keys: key families %s of x/xibc/core/host/keys.go were not translated '
+                              '(Gen/KeysPoisonGen.v); obligation C19_all_keys_ok' % ', '.join(poisoned),
+                       explanation='the expected store paths of this monitor are computed from key terms the translator could '
+                                   'not normalise, so this failure is not a concrete counterexample of the property; the '
+                                   'property is no longer shown to hold')
+        run.violation(rep, name='replay_h%d.json' % h, no_input=bool(poisoned))
         if len(run.violations) >= 2:
             break
     if not run.violations:
